@@ -326,7 +326,7 @@ func Equal(r1, r2 Resource) bool {
 			// nils (nil pointer, nil slice, etc) should be considered
 			// equal to a nil empty interface.
 			if fmt.Sprintf("%v", r1.Get(attr1.Name)) == "<nil>" &&
-				fmt.Sprintf("%v", r2.Get(attr1.Name)) == "<nil>" {
+				fmt.Sprintf("%v", r2.Get(attr2.Name)) == "<nil>" {
 				continue
 			}
 
